@@ -28,6 +28,10 @@ const (
 	minAllocContexts = 16
 )
 
+// stdin is shared by all read() calls, a reader per call would lose the input
+// it buffered beyond the line it returned.
+var stdin = bufio.NewReader(os.Stdin)
+
 type context struct {
 	ip       int                           // instruction pointer
 	m        *memory.Type                  // variables
@@ -495,8 +499,7 @@ func (vm *Type) Run(retResult bool) (value.Type, error) {
 			}
 
 		case bytecode.READ:
-			b := bufio.NewReader(os.Stdin)
-			line, err := b.ReadString('\n')
+			line, err := stdin.ReadString('\n')
 			if err != nil {
 				return vm.dumpStack(ctxp, ip, fmt.Errorf("read error %w", err))
 			}
